@@ -92,7 +92,15 @@ func openMem() (*hEnv, error) {
 
 func (h *hEnv) close() {
 	if h.engine != nil {
-		h.engine.Close()
+		// a shutdown that hangs (a check has reported a stalled stream or
+		// transaction before) must not wedge the run: it is abandoned
+		done := make(chan struct{})
+		eng := h.engine
+		go func() { eng.Close(); close(done) }()
+		select {
+		case <-done:
+		case <-time.After(10 * time.Second):
+		}
 	}
 	if h.cleanup != nil {
 		h.cleanup()
